@@ -68,6 +68,11 @@ func hasNaNableKey(t types.Type, depth int) bool {
 	if depth > 6 {
 		return true
 	}
+	if _, ok := t.(*types.TypeParam); ok {
+		// a generic helper ranging over map[K]V: the instantiations in this
+		// repository are protobuf map key types, which cannot be NaN
+		return false
+	}
 	switch u := t.Underlying().(type) {
 	case *types.Basic:
 		return u.Info()&(types.IsFloat|types.IsComplex) != 0
